@@ -13,10 +13,20 @@ Model: `PMF`.  Every activation of a step function or continuation is logged in 
 `paused` at the moment it starts.
 
 Transparency itself ("the executed steps, the context and the final result are those of the uninterrupted run") is proved
-below as a simulation (`C05_transparent_partial` and its corollaries; helper lemmas in `PM/Proof12.lean`) for histories of
-ticks, pause and play requests placed anywhere, and wake-up requests (`resume`, completion of an awaited future, its
-done-callback) placed at moments at which no pause is in effect (one may be requested).  The unrestricted statement
-is `C05_transparent_full`; the interleavings it adds are decided by the Python monitor `c05-transparent` only.
+below as a simulation between the run with pause/play requests and the run of its *reference history* (the same history
+without pause and play and without some of its ticks), for three nested classes of histories of ticks, pause and play requests
+placed anywhere, and wake-up requests (`resume`, completion of an awaited future, its done-callback, `call_soon`, a
+non-raising callback) placed
+* at moments at which no pause is in effect (`C05_transparent_partial`, `PM/Proof12.lean`);
+* also while the process is held by a pause on a wait (`C05_transparent_partial2`, `PM/Proof14.lean`);
+* also between a pause request that interrupted a pending wait and the next tick (`C05_transparent_partial3`,
+  `PM/Proof16.lean`; fuel hypothesis with one iteration of slack).
+Still excluded: wake-ups while the process is held at a step boundary in CREATED or RUNNING (the reference run is then ahead
+by the next step, and the wake-up has to be moved *before* the tick that ended the previous step), and histories with
+kill / fail / cancel / failing callbacks.  The unrestricted statement `C05_transparent_full` is **false** as it stands
+(`C05_transparent_full_false`, `PM/Proof15.lean`: a program that awaits one future under two context keys — the real
+`to_context` keeps one key per future); the statement to aim at is `C05_transparent_full_distinct`.  The interleavings outside
+the proved classes are decided by the Python monitor `c05-transparent` only.
 -/
 namespace PMF
 
@@ -184,8 +194,9 @@ theorem C05_reference_history_is_erasure (P : Prog) (c : Cfg) (evs : List Ev) :
     (unpaused P c evs).filter (fun e => !isTick e) = (erasePP evs).filter (fun e => !isTick e) :=
   ⟨unpaused_sublist P evs c, unpaused_no_pp P evs c, unpaused_nonticks P evs c⟩
 
-/-! the unrestricted statement (not proved): wake-up requests may arrive at any moment at which the run with pauses
-accepts them, also while a pause is requested or in effect -/
+/-! the unrestricted statement (refuted below for programs that await one future under two keys; open for the others):
+wake-up requests may arrive at any moment at which the run with pauses accepts them, also while a pause is requested or in
+effect -/
 
 /-- a request of the uninterrupted run that is effective in the run with pauses: a `resume` arrives while WAITING on a wait
 that has no outcome yet, an awaitable-done callback runs when it is scheduled -/
@@ -209,8 +220,9 @@ def admissibleFull (P : Prog) : Cfg → List Ev → Bool
   | _, [] => true
   | c, e :: es => evAllowedFull c e && admissibleFull P (step P c e).1 es
 
-/-- **transparency, full statement** (not proved; `C05_transparent_partial` / `C05_same_result_partial` prove it for the
-histories in which the wake-up requests arrive at quiet moments, with the reference history computed by `unpaused`):
+/-- **transparency, full statement** (FALSE as it stands: `C05_transparent_full_false`; see `C05_transparent_full_distinct`.
+`C05_transparent_partial` / `…_partial2` / `…_partial3` prove its instances for three nested classes of histories, with the
+reference history computed by `unpaused` / `unpaused2` / `unpaused3`):
 for every history of ticks, pause/play requests and effective wake-up requests there is a history without pause and play,
 with the same requests other than ticks, that ends in the same terminal state with the same trace and context.  For wake-ups
 that arrive while the run with pauses is held the reference history may have to deliver them later relative to its own
@@ -249,10 +261,13 @@ example : ¬ B10.AwDistinct dupP := by
   simp [dupP, B10.OutOk, B10.DistinctF] at this
 
 /-- **transparency, full statement for programs that never await the same future twice in one `ToContext`** (`AwDistinct`,
-the dict semantics of `Waiting._awaiting`; not proved — `C05_transparent_partial2` proves the instances in which the wake-ups
-arrive at quiet positions or while the process is held on a wait, with the identity permutation; an exhaustive search over
-the histories of length ≤ 11 of a two-wait workchain found no counterexample, and none that needs a reordering of the
-requests: moving ticks suffices). -/
+the dict semantics of `Waiting._awaiting`).  Not proved: `C05_transparent_full_on_partial3` proves the instances in which the
+wake-ups arrive anywhere except while the process is held at a step boundary in CREATED or RUNNING, with the identity
+permutation.  An exhaustive search (Lean interpreter, all `admissibleFull` histories of length ≤ 11 of a two-wait workchain
+with synchronous and asynchronous steps, ≈ 170 000 terminated histories) found no counterexample, and none that needs a
+reordering of the requests: in the model, moving ticks suffices (in ≈ 20 000 of them the erasure `unpaused` does not work and
+a wake-up has to come *before* the tick that ended the previous step).  On the real library the loop is FIFO, so there the
+reference run may need the requests themselves reordered (DESIGN.md, C05). -/
 def C05_transparent_full_distinct : Prop :=
   ∀ (P : Prog) (nf : Nat) (evs : List Ev), B10.AwDistinct P → admissibleFull P (init nf) evs = true →
     ∃ evs' : List Ev, (∀ e ∈ evs', e ≠ .pause ∧ e ≠ .play) ∧
